@@ -829,6 +829,8 @@ impl IndexManager {
     ) -> Result<()> {
         let file = File::create(path)
             .map_err(|e| StorageError::Index(format!("Failed to create temp index: {e}")))?;
+        #[cfg(feature = "verif-hooks")]
+        crate::verif_hooks::sched_point("idx.save.after_create_tmp");
         let mut writer = BufWriter::new(&file);
 
         // 1. Header guarded block (8 bytes)
@@ -876,8 +878,12 @@ impl IndexManager {
             .flush()
             .map_err(|e| StorageError::Index(format!("Failed to flush: {e}")))?;
 
+        #[cfg(feature = "verif-hooks")]
+        crate::verif_hooks::sched_point("idx.save.after_write");
         file.sync_all()
             .map_err(|e| StorageError::Index(format!("Failed to fsync: {e}")))?;
+        #[cfg(feature = "verif-hooks")]
+        crate::verif_hooks::sched_point("idx.save.after_fsync");
 
         Ok(())
     }
